@@ -231,6 +231,45 @@ const ECO: Table = Table {
     players_none: false,
 };
 
+/// Deviate the specific fields behind the generic accessors directly on the response value (so that, for
+/// instance, a stored count differs from the length of the stored list), through its serde form.
+fn mutate<T: serde::Serialize + serde::de::DeserializeOwned>(t: &Table, r: T, c: &mut Chooser) -> T {
+    let mut v = match serde_json::to_value(&r) {
+        Ok(v) => v,
+        Err(_) => return r,
+    };
+    let mut changed = false;
+    let mut ptrs: Vec<String> = t.fields.iter().filter_map(|(_, p)| p.map(|x| x.to_string())).collect();
+    if let Some((pp, name_key, score_key)) = &t.players {
+        ptrs.push(format!("{pp}/0/{name_key}"));
+        if let Some(sk) = score_key {
+            ptrs.push(format!("{pp}/0/{sk}"));
+        }
+    }
+    for ptr in ptrs {
+        let alt = crate::rsm::pick(c, &[0u8, 1, 2]);
+        if alt == 0 {
+            continue;
+        }
+        if let Some(slot) = v.pointer_mut(&ptr) {
+            let new = match &*slot {
+                Value::Number(_) => json!(if alt == 1 { 1 } else { 200 }),
+                Value::Bool(b) => json!(!*b),
+                Value::String(_) => json!(if alt == 1 { "Zq" } else { "" }),
+                _ => continue,
+            };
+            if *slot != new {
+                *slot = new;
+                changed = true;
+            }
+        }
+    }
+    if !changed {
+        return r;
+    }
+    serde_json::from_value(v).unwrap_or(r)
+}
+
 /// Check one response value against its table. Returns (class, detail, observed, expected) on failure.
 fn check_view(t: &Table, r: &dyn CommonResponse, specific: &Value) -> Option<(String, String, String, String)> {
     let acc: Vec<(&str, Value)> = vec![
@@ -374,65 +413,65 @@ impl Prop for C15 {
                     "valve" => {
                         let s = rv::gen_state(&mut c, rv::Layout::Source, Some(0xF1), 440, (b'd', b'l'), &[2, 0, 1], &[2, 0]);
                         let with_players = crate::rsm::pick(&mut c, &[true, false]);
-                        let r = rv::expected(&s, false, &EngineCfg::App440.engine(), with_players, true);
+                        let r = mutate(&VALVE, rv::expected(&s, false, &EngineCfg::App440.engine(), with_players, true), &mut c);
                         check_view(&VALVE, &r, &to_json(&r))
                     }
                     "gamespy1" => {
-                        let r = gen_gs1(&mut c, &[2, 0, 1]).expected();
+                        let r = mutate(&GS1, gen_gs1(&mut c, &[2, 0, 1]).expected(), &mut c);
                         check_view(&GS1, &r, &to_json(&r))
                     }
                     "gamespy2" => {
-                        let r = gen_gs2(&mut c, &[2, 0, 1], &[2, 0]).expected();
+                        let r = mutate(&GS2, gen_gs2(&mut c, &[2, 0, 1], &[2, 0]).expected(), &mut c);
                         check_view(&GS2, &r, &to_json(&r))
                     }
                     "gamespy3" => {
-                        let r = gen_gs3(&mut c, &[2, 0, 1], &[2, 0]).expected();
+                        let r = mutate(&GS1, gen_gs3(&mut c, &[2, 0, 1], &[2, 0]).expected(), &mut c);
                         check_view(&GS1, &r, &to_json(&r))
                     }
                     "quake1" => {
-                        let r = gen_quake(&mut c, Ver::One, &[2, 0, 1], false).expected_one();
+                        let r = mutate(&QUAKE, gen_quake(&mut c, Ver::One, &[2, 0, 1], false).expected_one(), &mut c);
                         check_view(&QUAKE, &r, &to_json(&r))
                     }
                     "quake2" => {
-                        let r = gen_quake(&mut c, Ver::Three, &[2, 0, 1], false).expected_two();
+                        let r = mutate(&QUAKE, gen_quake(&mut c, Ver::Three, &[2, 0, 1], false).expected_two(), &mut c);
                         check_view(&QUAKE, &r, &to_json(&r))
                     }
                     "unreal2" => {
-                        let r = gen_u2(&mut c, &[3, 0], &[2, 0, 1]).expected(true, true);
+                        let r = mutate(&UNREAL2, gen_u2(&mut c, &[3, 0], &[2, 0, 1]).expected(true, true), &mut c);
                         check_view(&UNREAL2, &r, &to_json(&r))
                     }
                     "java" => {
-                        let r = gen_java(&mut c).expected();
+                        let r = mutate(&JAVA, gen_java(&mut c).expected(), &mut c);
                         check_view(&JAVA, &r, &to_json(&r))
                     }
                     "bedrock" => {
-                        let r = gen_bedrock(&mut c).expected();
+                        let r = mutate(&BEDROCK, gen_bedrock(&mut c).expected(), &mut c);
                         check_view(&BEDROCK, &r, &to_json(&r))
                     }
                     "ffow" => {
-                        let r = gen_ffow(&mut c).expected();
+                        let r = mutate(&FFOW, gen_ffow(&mut c).expected(), &mut c);
                         check_view(&FFOW, &r, &to_json(&r))
                     }
                     "theship" => {
                         let s = rv::gen_state(&mut c, rv::Layout::Ship, Some(0xF0), 2400, (b'd', b'l'), &[2, 0, 1], &[2, 0]);
                         let v = rv::expected(&s, false, &EngineCfg::Ship2400.engine(), true, true);
-                        let r = gamedig::games::theship::Response::new_from_valve_response(v).expect("ship conversion");
+                        let r = mutate(&THESHIP, gamedig::games::theship::Response::new_from_valve_response(v).expect("ship conversion"), &mut c);
                         check_view(&THESHIP, &r, &to_json(&r))
                     }
                     "jc2m" => {
-                        let r = gen_jc2m(&mut c, &[2, 0, 1]).expected();
+                        let r = mutate(&JC2M, gen_jc2m(&mut c, &[2, 0, 1]).expected(), &mut c);
                         check_view(&JC2M, &r, &to_json(&r))
                     }
                     "savage2" => {
-                        let r = gen_savage2(&mut c).expected();
+                        let r = mutate(&SAVAGE2, gen_savage2(&mut c).expected(), &mut c);
                         check_view(&SAVAGE2, &r, &to_json(&r))
                     }
                     "mindustry" => {
-                        let r = gen_mindustry(&mut c).expected();
+                        let r = mutate(&MINDUSTRY, gen_mindustry(&mut c).expected(), &mut c);
                         check_view(&MINDUSTRY, &r, &to_json(&r))
                     }
                     _ => {
-                        let r = super::eco::gen_eco(&mut c).expected();
+                        let r = mutate(&ECO, super::eco::gen_eco(&mut c).expected(), &mut c);
                         check_view(&ECO, &r, &to_json(&r))
                     }
                 };
